@@ -64,11 +64,32 @@ def respell_char(lit, rng):
     return rng.choice(opts) if opts else None
 
 
+def scans_as_interpreted(body):
+    """True iff  " + body + "  is ONE interpreted string literal of the front-end scanner whose content is body: no line break, every
+    quote escaped, no dangling backslash (the scanner skips the byte after a backslash; gocc does not decode escapes in string literals,
+    so the CONTENT of "..." and `...` with the same bytes is the same)"""
+    i = 0
+    while i < len(body):
+        c = body[i:i + 1]
+        if c in (b"\n", b'"'):
+            return False
+        if c == b"\\":
+            if i + 1 >= len(body) or body[i + 1:i + 2] == b"\n":
+                return False
+            # only escapes the scanner accepts silently
+            if body[i + 1:i + 2] not in (b'"', b"\\", b"n", b"t", b"r", b"a", b"b", b"f", b"v", b"'"):
+                return False
+            i += 2
+            continue
+        i += 1
+    return True
+
+
 def requote(lit):
     body = lit[1:-1]
-    if lit[:1] == b'"' and b"`" not in body and b"\\" not in body:
+    if lit[:1] == b'"' and b"`" not in body:
         return b"`" + body + b"`"
-    if lit[:1] == b"`" and b'"' not in body and b"\\" not in body and b"\n" not in body:
+    if lit[:1] == b"`" and scans_as_interpreted(body):
         return b'"' + body + b'"'
     return None
 
@@ -118,7 +139,7 @@ def run(ctx):
             g, alpha = lexgen.gen_lex_grammar(rng)
             bases.append(g.text(rng).encode("utf-8"))
         elif k == 1:
-            bases.append(c09.hostile_grammar(rng).encode("utf-8"))
+            bases.append(c09.hostile_grammar(rng, idx=len(c09.HOSTILE_LITS) - 1 - i // 3).encode("utf-8"))
         else:
             g = cfggen.gen_cfg(rng, with_error=(rng.random() < 0.3))
             bases.append((cfggen.lex_part(g) + "\n" + c10.syntax_text(g)).encode("utf-8"))
